@@ -475,6 +475,7 @@ func (w *World) Apply(ev Event) bool {
 	w.checkRetained()
 	for _, o := range w.toConsume {
 		w.retain(o)
+		w.hostFold(o)
 		if problem := ConsumeOutput(o); problem != "" {
 			w.violate(spec.Violation{Props: spec.P("C01", "C10", "C13"), Clause: "output-ownership", Detail: problem})
 		}
@@ -680,4 +681,58 @@ func trunc(s string, n int) string {
 		return s[:n] + "..."
 	}
 	return s
+}
+
+// hostFold: the host keeps one accumulated output account per address and folds every later
+// snapshot of that account into it with the library's MergeOutputAccounts, the way a VM host folds
+// the output of a nested call into an earlier checkpoint: the later snapshot lists the transfers so
+// far plus the new ones, the merge takes over the new ones. Afterwards the accumulated account must
+// list exactly what the snapshots listed (C01/C10: a message taken over wrongly is a message lost
+// and another one sent twice).
+func (w *World) hostFold(out *vmcommon.VMOutput) {
+	if out == nil {
+		return
+	}
+	if w.folded == nil {
+		w.folded = map[string]*vmcommon.OutputAccount{}
+		w.foldedWant = map[string][]string{}
+	}
+	keys := make([]string, 0, len(out.OutputAccounts))
+	for k := range out.OutputAccounts {
+		keys = append(keys, k)
+	}
+	sort.Strings(keys)
+	for _, k := range keys {
+		oa := out.OutputAccounts[k]
+		if oa == nil || len(oa.OutputTransfers) == 0 {
+			continue
+		}
+		acc := w.folded[k]
+		if acc == nil || len(acc.OutputTransfers) >= 6 {
+			acc = &vmcommon.OutputAccount{}
+			w.folded[k] = acc
+			w.foldedWant[k] = nil
+		}
+		// the later snapshot: what the account listed so far, then this call's transfers (copies)
+		snap := &vmcommon.OutputAccount{Address: append([]byte{}, oa.Address...)}
+		snap.OutputTransfers = append(snap.OutputTransfers, acc.OutputTransfers...)
+		for _, t := range oa.OutputTransfers {
+			c := t
+			c.Data = append([]byte{}, t.Data...)
+			if t.Value != nil {
+				c.Value = new(big.Int).Set(t.Value)
+			}
+			snap.OutputTransfers = append(snap.OutputTransfers, c)
+			w.foldedWant[k] = append(w.foldedWant[k], string(t.Data))
+		}
+		acc.MergeOutputAccounts(snap)
+		var got []string
+		for _, t := range acc.OutputTransfers {
+			got = append(got, string(t.Data))
+		}
+		if fmt.Sprint(got) != fmt.Sprint(w.foldedWant[k]) {
+			w.violate(spec.Violation{Props: spec.P("C01", "C10"), Clause: "output-ownership", Detail: fmt.Sprintf("the host folded a later snapshot of the output account %x into its checkpoint with MergeOutputAccounts: the checkpoint lists %q, the snapshots listed %q", k, got, w.foldedWant[k])})
+			w.folded[k] = nil
+		}
+	}
 }
